@@ -590,15 +590,19 @@ class HedTag:
         if not units:
             return None, None, None
 
-        for unit_class_entry in tag_unit_classes.values():
-            possible_match = unit_class_entry.get_derivative_unit_entry(units)
-            if possible_match and not possible_match.has_attribute(HedKey.UnitPrefix):
-                return value, units, possible_match
+        # A unit name may itself contain a blank ('degree Celsius'): try the last word first, then longer tails.
+        words = extension_text.split(" ")
+        for first_unit_word in range(len(words) - 1, 0, -1):
+            value, units = " ".join(words[:first_unit_word]), " ".join(words[first_unit_word:])
+            for unit_class_entry in tag_unit_classes.values():
+                possible_match = unit_class_entry.get_derivative_unit_entry(units)
+                if possible_match and not possible_match.has_attribute(HedKey.UnitPrefix):
+                    return value, units, possible_match
 
-            # Repeat the above, but as a prefix
-            possible_match = unit_class_entry.get_derivative_unit_entry(value)
-            if possible_match and possible_match.has_attribute(HedKey.UnitPrefix):
-                return units, value, possible_match
+                # Repeat the above, but as a prefix
+                possible_match = unit_class_entry.get_derivative_unit_entry(value)
+                if possible_match and possible_match.has_attribute(HedKey.UnitPrefix):
+                    return units, value, possible_match
 
         return None, None, None
 
